@@ -70,10 +70,11 @@ class Check(PropertyCheck):
         before = after = 0
         for ep in range(rng.randint(2, 3)):
             # (an episode may be empty: resets back to back, also right after the constructor's first reset)
+            direct = rng.random() < 0.3       # this episode is driven through env.dispatcher directly (no env.step at all)
             for _ in range(total if rng.random() < 0.4 else 0 if rng.random() < 0.25 else rng.randint(1, total)):
-                lines.append(f"eauto {rng.randint(0, 50)}")
+                lines.append(f"{'edauto' if direct else 'eauto'} {rng.randint(0, 50)}")
                 before, after = (before + 1, after) if ep == 0 else (before, after + 1)
-            lines.append(rng.choice(["ereset", "edreset", "edreset"]))
+            lines.append("ereset" if direct else rng.choice(["ereset", "edreset", "edreset"]))
             while rng.random() < 0.3:
                 lines.append(rng.choice(["ereset", "ereset", "edreset"]))
         lines.append(f"eauto {rng.randint(0, 50)}")
